@@ -183,6 +183,39 @@ def run(ctx):
                 s2.violate({"pre": pre, "post": post, "delta": delta}, "own output and labels unchanged", "changed", "the surrounding program's output or addresses are affected by .include_ips")
         s2.sample({"example": "*=0x008000 / .db 1,2 / .include_ips 'inc.ips', 16 / .db 3"})
         # through the IPS writer: the included records keep their shifted offsets in the patch, or the assembly fails
+        # the directive inside a macro / loop body expanded several times with different deltas: every expansion shifts the
+        # records by its own delta
+        for i in range(12 if tier == "quick" else 150):
+            f, desc = gen_file(rng, tier)
+            sp = drv.ask([f"spec.ipsparse {f.hex() or '-'}"])[0]
+            if not sp.startswith("some"):
+                continue
+            recs = parse_blocks(sp[5:] if len(sp) > 5 else "-")
+            if not recs:
+                continue
+            with open(os.path.join(tmp, "mp.ips"), "wb") as fh:
+                fh.write(f)
+            d1, d2 = rng.choice([0, 0x20, 0x200, 0x1234]), rng.choice([0x40, 0x8000, 0x10, 0x4321])
+            if i % 2 == 0:
+                src = f"*=0x008000\n.macro patch_at_zq(d) {{\n.include_ips 'mp.ips', d\n}}\n.db 1\npatch_at_zq(0x{d1:x})\n.db 2\npatch_at_zq(0x{d2:x})\n.db 3\n"
+                ds = [d1, d2]
+            else:
+                src = f"*=0x008000\n.db 1\nstep_zq := 0x{d2:x}\n.macro patch_k_zq(k) {{\n.include_ips 'mp.ips', k * step_zq\n}}\npatch_k_zq(1)\npatch_k_zq(2)\n.db 3\n"
+                ds = [d2, 2 * d2]
+            r = impl.assemble(src, cwd=tmp)
+            s2.cases += 1
+            s2.count("include-in-repeated-body")
+            if r["status"] != "ok":
+                s2.violate({"src": src, "file_head": f[:32].hex()}, "assembled", r.get("exc") or r.get("error"), "a program applying a macro with .include_ips twice is rejected")
+                continue
+            exp_recs = [(a + d, dd) for d in ds for a, dd in recs]
+            jj = 0
+            for blk in r["blocks"]:
+                if jj < len(exp_recs) and blk == exp_recs[jj]:
+                    jj += 1
+            if jj != len(exp_recs):
+                s2.violate({"src": src, "file_head": f[:32].hex(), "deltas": ds}, f"{len(exp_recs)} shifted records in order", f"{jj} found",
+                           "an expansion of `.include_ips` does not place the records at their offsets plus that expansion's delta")
         s3 = core.Stream("S8-include-to-ips-file", "programs with `.include_ips 'f', delta` written through the real IPSWriter (with and without copier header), deltas that carry records to the top of / past the 24-bit offset space; oracle: the standard reader (Spec.Ips.parse) finds each record's bytes at offset + delta (+0x200), in order, or the assembly is refused when such an offset cannot be represented; never wrapped to another offset")
         import io
         from a816.program import Program
